@@ -15,6 +15,13 @@ Subs_All == [L -> (SUBSET Ev) \ {{}}]
 Subs_Some == {s \in Subs_All : s["l1"] \in {Ev, {R}} /\ s["l2"] \in {{R, S}, {P}}}
 Subs_Two == {s \in Subs_All : s["l1"] = Ev /\ s["l2"] \in {{R, S}, {P}}}
 
+\* the re-assigning listener l2 hears everything; l1 hears everything too, or only part of it
+Subs_Both == {s \in Subs_All : s["l2"] = Ev /\ s["l1"] \in {Ev, {R, S}, {P}}}
+
+Beh_Nop == {[l \in L |-> Nop]}
+\* l2 clamps one property to the vector vb (a 2D rotation: to ClampRot), l1 only listens
+Beh_Clamp == {[l \in L |-> IF l = "l2" THEN <<"clamp", p, "vb">> ELSE Nop] : p \in Props}
+
 Arg(t, p) == {Dflt} \cup (IF Scalar(t, p) THEN {N(i) : i \in Rot} ELSE VecVals)
 \* constructor calls of one transform: no argument / all three / only the rotation / all but the rotation
 CtorOf(t) == {a \in [Props -> AllVals \cup {Dflt}] :
